@@ -324,6 +324,7 @@ type hydra struct {
 	// a swampot, különben képesek lennének egyszerre létrehozni, ugyanazt a swampot. Így ha az egyik summonolja a swampot,
 	// akkor meg kell várja a másik, hogy az első visszakapja azt.
 	summoningSwamps sync.Map
+	summonMu        sync.Mutex // guards SwampWaiter.users together with insertion into / removal from summoningSwamps
 
 	// interfaces
 	elysiumInterface  safeops.Safeops
@@ -369,7 +370,7 @@ func (h *hydra) GetLocker() lock.Lock {
 type SwampWaiter struct {
 	cond  *sync.Cond
 	ready bool
-	count int32 // store the number of waiting goroutines
+	users int32 // number of goroutines holding or waiting for the slot; guarded by hydra.summonMu
 }
 
 func newSwampWaiter() *SwampWaiter {
@@ -392,8 +393,25 @@ func (h *hydra) SummonSwamp(ctx context.Context, islandID uint64, swampName name
 	// if the ok is true then the swamp is already summoning, so we need to wait for the other process to finish the summoning process
 	// if the ok is false then the swamp is not summoning, so we can start the summoning process and store the swamp in the map
 	// immediately
+	// Looking the slot up and registering as one of its users happen under one lock, and so do
+	// deregistering and removing the slot. Otherwise the slot could be removed from the map
+	// while a goroutine still waits on (or is about to take) it: that goroutine and a newcomer,
+	// who gets a fresh slot, would then summon - and create - the same swamp concurrently.
+	h.summonMu.Lock()
 	result, _ := h.summoningSwamps.LoadOrStore(swampName.Get(), newSwampWaiter())
 	waiter, _ := result.(*SwampWaiter)
+	waiter.users++
+	h.summonMu.Unlock()
+
+	releaseWaiter := func() {
+		h.summonMu.Lock()
+		waiter.users--
+		// ha nincs több várakozó goroutin, akkor töröljük a várakozó mapből a swampot
+		if waiter.users == 0 {
+			h.summoningSwamps.Delete(swampName.Get())
+		}
+		h.summonMu.Unlock()
+	}
 
 	// lezárjuk a következő kódrészt, így csak egyetlen rutin futhatja egyszerre egy domain néven belül
 	waiter.cond.L.Lock()
@@ -403,9 +421,9 @@ func (h *hydra) SummonSwamp(ctx context.Context, islandID uint64, swampName name
 			// Ha a kontextus megszakad, jelezzük a többi várakozó goroutinnak, hogy ne várjanak tovább
 			waiter.cond.Broadcast()
 			waiter.cond.L.Unlock()
+			releaseWaiter()
 			return nil, ctx.Err() // Visszatérünk a kontextus hibaüzenetével
 		default:
-			atomic.AddInt32(&waiter.count, 1)
 			waiter.cond.Wait()
 		}
 	}
@@ -418,12 +436,7 @@ func (h *hydra) SummonSwamp(ctx context.Context, islandID uint64, swampName name
 		waiter.ready = false
 		waiter.cond.Broadcast() // Értesítjük a többi várakozót
 		waiter.cond.L.Unlock()
-		// csökkentjük a várakozó goroutinok számát
-		atomic.AddInt32(&waiter.count, -1)
-		// ha nincs több várakozó goroutin, akkor töröljük a várakozó mapből a swampot
-		if atomic.LoadInt32(&waiter.count) == 0 {
-			h.summoningSwamps.Delete(swampName.Get())
-		}
+		releaseWaiter()
 	}()
 
 	var swampObject swamp.Swamp
